@@ -1,5 +1,6 @@
 """C02: statement components (claimed value, point, commitment) reach the verifier's decision."""
 from ..rules import influence as R1
+from ..rules import everyiter as R1D
 
 CONFIGS_QUICK = ["default"]
 CONFIGS_THOROUGH = ["default", "nopar", "r1cs"]
@@ -10,7 +11,10 @@ EXPLANATION = (
     "set, each commitment payload field) the interprocedural dependence graph must contain a path from that part to "
     "the verifier's outcome (its return value or a branch that aborts). The graph over-approximates dependence, so a "
     "missing path proves the part cannot affect acceptance: an accepted transcript stays accepted when that part is "
-    "changed, which is what C02 forbids. Decides this structural necessary condition only, not the algebra.")
+    "changed, which is what C02 forbids. R1d: where a verifier loop extracts the claimed value per element, no path "
+    "inside the loop leads from the extraction to the next iteration without consuming the value (a `continue` that "
+    "jumps over the comparison lets that claim through while the comparison is still present in the function). "
+    "Decides these structural necessary conditions only, not the algebra.")
 RULE = ("instances = verifier anchors x {values, point, commitment fields}; container-typed parameters are followed "
         "to the element locals extracted from them (payload mode); an instance holds iff OUTCOME is reachable; "
         "non-trivial = the source exists in the analysed bodies")
@@ -30,3 +34,4 @@ def run(rep, ctx, tier):
         for name, comp in R1.statement_components(a):
             ok, detail, where, n = R1.component(ctx, a, comp)
             rep.add("R1", "%s:%s" % (a.key, name), ok, detail, where or a.body.span, nontrivial=n > 0)
+        rep.count("values_extracted_in_loops", R1D.run_values(rep, ctx, a, "R1d"))
